@@ -1,8 +1,8 @@
 """C04 — Queue operations and task submission always terminate."""
-from .. import queues
+from .. import queues, pwsq
 
 ID = "C04"
-PROPS = ["theories/Props/C04.vo"]
+PROPS = ["theories/Props/C04.vo", "theories/Props/PWS.vo"]
 CASES_MODULE = "Cases.C04"
 AREA = "ows"
 ISOLATE = True
@@ -12,9 +12,22 @@ SHRINK_KEY = "ops"
 RULE = ("sequential histories over 1-4 handles biased to fill -> steal -> fill-again, plus random histories; "
         "every call under a 2.5 s watchdog (expiry = observation `diverged`); non-trivial = the model's run "
         "overflowed, stole, consulted the shared queue on a tick, or popped idle; distinct = distinct op list")
-term = queues.term
-nontrivial = queues.nontrivial
-distribution = queues.distribution
+
+
+def term(case, obs):
+    if pwsq.is_plain(case):
+        return "(@inr qcase pcase %s)" % pwsq.term(case, obs)
+    return "(@inl qcase pcase %s)" % queues.term(case, obs)
+
+
+def nontrivial(case, obs, verdict):
+    return pwsq.nontrivial(case, obs, verdict) if pwsq.is_plain(case) else queues.nontrivial(case, obs, verdict)
+
+
+def distribution(results):
+    d = queues.distribution([r for r in results if not pwsq.is_plain(r[0])])
+    d["plain_queue"] = pwsq.distribution([r for r in results if pwsq.is_plain(r[0])])
+    return d
 
 
 def gen(rng, tier):
@@ -25,12 +38,15 @@ def gen(rng, tier):
             cases.append(queues.fill_steal_fill(rng))
         else:
             cases.append(queues.random_history(rng, rng.randint(5, 40), drain=True))
+    cases += pwsq.gen_c04(rng, tier)
     return cases
 
-PINNED = ['C04_step_terminates', 'C04_terminates', 'C04_holds', 'C04_model_sync']
+PINNED = ['C04_step_terminates', 'C04_terminates', 'C04_holds', 'C04_model_sync', 'PWS_C04_step_terminates', 'PWS_C04_terminates', 'PWS_C04_holds']
 LEVEL_TEXT = 'Theorem: no call of the model exhausts its fuel from ANY state (push_to_global makes progress or stops), hence no history diverges. Tied to the code by fill/steal/fill histories under a watchdog; a call that never returns is the observation `diverged`.'
 LEVEL_NOTE = ("Trusted: Coq kernel + vm_compute; hand transcription of ordered_work_steal.rs (model OWS.v) validated on the "
               "sampled histories only; st3 rings / crossbeam injectors / skiplist modelled as FIFO lists and a sorted map; "
               "sequential histories (one call at a time); the steal start index is an input via the build.rs import "
-              "rewrite. The plain WorkStealQueue is not modelled. No axioms (closed under the global context).")
+              "rewrite. No axioms (closed under the global context).")
 TECHNIQUE = "Coq proof (invariants over all histories of a Gallina model) + lockstep differential correspondence inside Coq"
+
+LEVEL_TEXT += ' The plain WorkStealQueue has the same theorem (no call of Queue/PWS.v diverges from any state) and the same watchdog correspondence.'
